@@ -262,7 +262,14 @@ MANIFEST = {
                  "their storage; accounts nobody is charged for need no write). C03_history_from_genesis / C03_history_equals_reference_history: "
                  "for multi-transaction histories moving whole multiples of 10^12 wei every return value of every call equals the pure "
                  "reference history's and the final keeper is the reference's final world. C03_refund_cap_eq_geth, C03_refund_cap_bounds, "
-                 "C03_nonce_bracket, C03_parse_wei_multiple cover ApplyEvmMsg's arithmetic. The model is run against the real statedb.StateDB + "
+                 "C03_nonce_bracket, C03_parse_wei_multiple cover ApplyEvmMsg's arithmetic. C03_commit_code_table / C03_delete_account_keeps_bytecode / "
+                 "C03_code_retrievable_after_tx: the bytecode table shared by hash only grows at Commit and DeleteAccount leaves it alone, so code "
+                 "of surviving siblings of a self-destructed contract stays retrievable. C03_boolean_protocol_check_sound links the boolean "
+                 "protocol check evaluated on traces to the Prop-level hypotheses. The journal/commit discipline of the CURRENT tree (per "
+                 "JournalChange: fields, Dirtied, Revert effects; per mutator: which entry is appended with which previous value, before the "
+                 "mutation, under which condition; access-list change conditions; commitCtx; Keeper.DeleteAccount) is re-extracted with go/ast on "
+                 "every run (Gen/C03Facts.v) and proved equal to the table the model is written from (Gen/C03Oblig.v: C03_facts_*, "
+                 "C03_holds_for_current_tree). The model is run against the real statedb.StateDB + "
                  "keeper stores AND go-ethereum core/state on generated call sequences (return value of every call, keeper table after every "
                  "commit), and generated EVM bytecode is run through Keeper.ApplyEvmMsg vs geth core.ApplyMessage (gas after refunds, error "
                  "class, return data, logs, post-state); the proved-sound checkers Pb / Pprog_b are evaluated on those traces."),
@@ -271,13 +278,15 @@ MANIFEST = {
     "level_note": ("Not proved: the interpreter; that geth core/state implements the copy-stack reference (tested three-way on every run); that the "
                    "residual difference - Nibiru keeps touched empty accounts, geth deletes them (EIP-158), visible only through Exist/GetCodeHash on "
                    "empty accounts - cannot influence London-rules execution (argued in README, exercised by the bytecode driver). Model abstractions: "
-                   "code identified with its hash (stateObject.code cache / DirtyCode not modelled), linear instead of binary search of validRevisions, "
+                   "code identified with its hash (stateObject.code byte cache not modelled), linear instead of binary search of validRevisions, "
                    "no uint64 wrap-around, no negative balances, no precompile/cache-context layer (C04). Trusted: Coq kernel + vm_compute, Go drivers "
                    "harness/c03 (id encodings, panic capture, gas tracer), tools/props/c03.py rendering, go-ethereum core/state + core.ApplyMessage as "
-                   "the meaning of 'upstream'. Two tried code changes are invisible at this interface and are not detected (Journal.Revert not "
-                   "decrementing dirties; final Commit not updating OriginStorage): the StateDB is discarded after the final Commit."),
+                   "the meaning of 'upstream'; for the generated-facts obligations additionally the extractor harness/gen/c03 (go/parser+go/ast, prints "
+                   "normal-form terms only) and the hand-maintained table coq/C03/Discipline.v, whose correspondence to the Gallina definitions is by "
+                   "inspection (the Dirtied column is proved). Two code changes that are invisible at this interface (Journal.Revert not decrementing "
+                   "dirties; final Commit not updating OriginStorage) are detected by those obligations only, not by the correspondence."),
     "technique": ("Coq refinement proof: observable view of the journaled StateDB; per-method forward simulation + journal-revert lemmas; simulation "
                   "relation with saved revisions; structural invariants via decomposition into primitive transitions; pointwise state equality "
-                  "(no functional extensionality). Tie to the code: differential correspondence model vs Nibiru vs go-ethereum on generated call "
+                  "(no functional extensionality). Tie to the code: generated facts (go/ast normal form of the journal/commit discipline) with proof obligations; differential correspondence model vs Nibiru vs go-ethereum on generated call "
                   "sequences and generated bytecode, inside Coq with vm_compute."),
 }
